@@ -30,6 +30,10 @@ Oracle : every next() outcome equals the model's: the item source[cursor] (vlib.
          next explicit housekeeping step the daemon's own background housekeeping may or may not have removed it: both
          outcomes are legal there and the model follows what was observed; a stream that has NOT expired must be present.
          ITER_STREAMING off: the call raises ProtocolError and nothing is registered.
+Layer T (checks/c10_table.py, "table" shards): the daemon-internal operations on the stream table (housekeeping, next, close_stream,
+         disconnect handling, registration of a new stream) run by 2-3 threads under the harness-owned scheduler, all schedules with
+         <= 1 (quick) / <= 2 (thorough) deviations from run-to-block for a catalogue of operation pairs plus generated tables and
+         operation sets; every fact all sequential orders of the same operations agree on must hold for every interleaving.
 """
 import atexit
 import contextlib
@@ -51,7 +55,9 @@ RULE = ("a case = {config: {streaming, lifetime in 0|7|30, linger in 0|10|40}, p
         "<= 25 of open/next/close/drop/disc/reco/call/hk/adv (three op-weight profiles: mixed, next-heavy, clock-heavy)} generated "
         "by Hypothesis, executed against a live daemon (thread|multiplex x 4 serializers) with a virtual clock next to a reference model. "
         "Non-trivial: two streams received items in interleaved order, or a proxy with a registered stream was disconnected/"
-        "reconnected, or a stream expired (lifetime or linger); distinct = distinct case JSON")
+        "reconnected, or a stream expired (lifetime or linger); distinct = distinct case JSON. Table layer: a case = (table of 1-3 streams attached/"
+        "lingering/expired, 2-3 daemon-internal operations from hk|next|close|disc|open, lifetime, linger) x every schedule with <= 1 (thorough: 2) "
+        "deviations from run-to-block at source-line granularity of server.py; oracle = facts common to all sequential orders")
 ASSUMPTIONS = [
     "the virtual clock is advanced only by the harness, in whole seconds; lifetime/linger are whole numbers (no float rounding at the boundary)",
     "config items are constant during a case (ITER_STREAMING/ITER_STREAM_LIFETIME/ITER_STREAM_LINGER are read by the server at call time)",
@@ -249,6 +255,9 @@ _LAST = {"labels": (), "nontrivial": False}
 
 
 def run_case(case, servertype=None, serializer=None):
+    if case.get("layer") == "table":
+        from checks import c10_table
+        return c10_table.run_case(case)
     servertype = servertype or case.get("servertype", "thread")
     serializer = serializer or case.get("serializer", "serpent")
     S = _setup(servertype)
@@ -806,11 +815,34 @@ def case_strategy(draw, max_ops=25, max_items=6):
 
 def SHARDS(tier):
     reps = 2        # 16 shards = one wave on 16 cores in both tiers (the thorough tier runs longer, not wider)
-    return [{"servertype": t, "serializer": s, "part": r} for r in range(reps) for t in ("thread", "multiplex") for s in SERIALIZERS]
+    return [{"servertype": t, "serializer": s, "part": r} for r in range(reps) for t in ("thread", "multiplex") for s in SERIALIZERS] + \
+        [{"part": "table", "k": k} for k in range(2 if tier == "quick" else 8)]
+
+
+def run_table(ctx):
+    """layer T: the stream table under concurrent server threads, harness-owned schedule (see checks/c10_table.py)"""
+    from checks import c10_table as T
+    k = ctx.shard.get("k", 0)
+    if k % 2 == 0:
+        cat = list(T.catalogue())
+        for case in cat[k // 2::max(1, ctx.shard["count"] // 2) if ctx.tier != "quick" else 1]:
+            case = dict(case, preemptions=1 if ctx.tier == "quick" else 2, limit=400 if ctx.tier == "quick" else 5000)
+            v = T.run_case(case)
+            ctx.notes["table_schedules_run"] = ctx.notes.get("table_schedules_run", 0) + case.pop("_schedules", 0)
+            ctx.observe(case, v, True, T.labels(case) + ["catalogue"])
+    else:
+        def rc(case):
+            case["limit"] = 150
+            v = T.run_case(case)
+            ctx.notes["table_schedules_run"] = ctx.notes.get("table_schedules_run", 0) + case.pop("_schedules", 0)
+            return v
+        ctx.search(T.table_case(), rc, ctx.n(60, 1500), nontrivial=lambda c: True, labels=T.labels, name="streamtable", max_rounds=4)
 
 
 def run(ctx):
     sh = ctx.shard
+    if sh.get("part") == "table":
+        return run_table(ctx)
     servertype, serializer = sh.get("servertype", "thread"), sh.get("serializer", "serpent")
     try:
         strategy = case_strategy(max_ops=25, max_items=6 if ctx.tier == "quick" or sh.get("part", 0) % 2 == 0 else 30)
